@@ -72,6 +72,9 @@ def gen_scenario(rng):
         # config value — is the old version the hooks have to see
         "cfg_behind": rng.random() < 0.3,
         "nfiles": rng.randint(1, 3),
+        # a NESTED run (the update is itself started by another project's hook): BUMPVER_OLD_VERSION / BUMPVER_NEW_VERSION of the outer run
+        # are in the process environment and must not reach this run's hooks
+        "nested": rng.random() < 0.3,
     }
     # config-level consistency (the config reader rejects tag/push without commit: a different code path)
     if not sc["cfg_commit"]:
@@ -180,7 +183,11 @@ def run_impl(sc):
             args.append("--ignore-vcs-tag")
         pr.fake_probe("bumpver.toml", 'current_version = "%s"' % new)
         before = pr.snapshot()
-        code, out, exc = sandbox.run_cli(args, pr.dir, pr.env())
+        env = pr.env()
+        if sc.get("nested"):
+            # the update runs inside ANOTHER project's hook (a nested run): the ambient BUMPVER_* variables are the outer run's
+            env["BUMPVER_OLD_VERSION"], env["BUMPVER_NEW_VERSION"] = "7.0.0", "7.0.1"
+        code, out, exc = sandbox.run_cli(args, pr.dir, env)
         after = pr.snapshot()
         log = pr.fake_log()
         wlog = pr.fake_wlog()
